@@ -594,7 +594,8 @@ impl Story {
             .get_current_element()
             .current_pointer
             .clone();
-        pointer.index += 1;
+        // (a divert or path jump can put the pointer at any index)
+        pointer.index = pointer.index.saturating_add(1);
 
         let mut container = pointer.container.as_ref().unwrap().clone();
 
